@@ -775,3 +775,43 @@ def override_slot_name(ctx, rep: Report, rule: str):
     if not ok:
         rep.violate(Violation(rule, f"{rule}|{exprs}", f"Alias.override_attr builds the override slot name from {exprs}: two aliases of the same target share one slot, so assigning one alias changes what the other reads",
                               f"{m[0].module.relpath}:{m[0].node.lineno}", "Alias.override_attr"))
+
+
+def parent_kwargs_init_only(ctx, rep: Report, rule: str):
+    """Whatever the constructor hands to a parent spec-class constructor (a caller keyword or a pre-resolved default) is
+    an init-enabled attribute of that parent: an init=False attribute is not a parameter of the parent's generated
+    __init__ and would be rejected."""
+    from . import boolfn
+    from ..scenarios import core_impl
+    from .base import with_callees
+    rep.rules[rule] = "keywords forwarded to a parent constructor are restricted to init-enabled attributes"
+    fi = core_impl(ctx.H, "init").impl
+    n = 0
+    bad = []
+    for g in with_callees(ctx.p, fi, 1):
+        if g is not fi and not g.module.name.startswith(ctx.p.package + ".methods"):
+            continue
+        for loop in walk_own(g.node):
+            if not isinstance(loop, ast.For):
+                continue
+            stores = [s for s in ast.walk(loop) if isinstance(s, ast.Assign) and isinstance(s.targets[0], ast.Subscript)
+                      and ast.unparse(s.targets[0].value) == "parent_kwargs" and ast.unparse(s.targets[0].slice) == ast.unparse(loop.target)]
+            if not stores:
+                continue
+            for s in stores:
+                n += 1
+                rc = boolfn.reach_condition(loop.body, lambda x, s=s: any(y is s for y in ast.walk(x)) if not isinstance(x, ast.If) else False)
+                # path condition of the statement that (transitively) contains the store
+                cond_src = ""
+                if rc is not None and rc is not True:
+                    cond_src = ast.unparse(rc)
+                from .c16 import _guards_of
+                cond_src += " && " + " && ".join(_guards_of(loop, s))
+                if ".init" not in cond_src:
+                    bad.append((s, f"`{ast.unparse(s)[:60]}` is reached without testing `<attr spec>.init` (conditions: {cond_src[:120]})"))
+    if n < 2:
+        raise AnalysisError(f"{rule}: {n} parent keyword stores found (floor 2)")
+    rep.oblige(rule, "InitMethod.init[parent keywords]", not bad, "; ".join(b for _, b in bad[:2]))
+    for s, b in bad[:2]:
+        rep.violate(Violation(rule, f"{rule}|{ast.unparse(s)[:40]}", f"InitMethod.init: {b}: an init=False attribute of a parent spec class is passed to the parent's constructor, which rejects it (the subclass cannot be instantiated)",
+                              f"{fi.module.relpath}:{s.lineno}", "InitMethod.init"))
